@@ -220,6 +220,19 @@ def wiring(ctx, w: Wiring, meth, op, case, st_mf, ba_mf, racc, where):
             env[('param', pname)] = ('payload', k, 'Pattern')
     if meth in NO_TERM:
         return
+    # every term-typed parameter must be tied to a stack slot by the tracker
+    unbound = []
+    for a in fn.args.args[1:]:
+        ann = ast.unparse(a.annotation) if a.annotation else ''
+        term_typed = ('Pattern' in ann or 'Proved' in ann or 'MetaVar | ESubst' in ann) and 'tuple' not in ann and 'dict' not in ann \
+            and 'Mapping' not in ann
+        if term_typed and a.arg not in slot_of:
+            unbound.append(a.arg)
+    if unbound:
+        ctx.ob('wiring', tag, False,
+               f'StatefulInterpreter.{meth} does not tie its argument(s) {unbound} to a stack slot (no `assert <slot> == {unbound[0]}`): '
+               f'the term the generator means and the term the machine uses can differ', where)
+        return
     # `if sum(len(l) for l in [a, b, ...]) == 0` selects the case in which every listed operand is empty
     for a, b in case['rec']['binds']:
         for x, y in ((a, b), (b, a)):
